@@ -242,6 +242,11 @@ func (r *run) check(s, after string) (stState, bool) {
 		r.violate("heads-entry-differs-from-index:"+afterClass(after), fmt.Sprintf("store %s: heads entry %v, advertised hash %s [after %s]", s, o.HeadEntry, o.Hash, after))
 		return st, false
 	}
+	// ... the index as it is served to peers (several ranges in one StoreDiff request) is the index
+	if d := rs.wireRanges(); d != "" {
+		r.violate("diff-answer-differs-from-index", fmt.Sprintf("store %s: the StoreDiff answer for 32 element ranges + 1 hash range in one request does not describe the index: %s [after %s]", s, d, after))
+		return st, false
+	}
 	// ... and so does what the head-storage observers (the space-level head sync) were last told
 	if o.Observed != nil && (len(o.Observed) != 1 || o.Observed[0] != o.Hash) {
 		key := "observers-heads-differ:" + afterClass(after)
